@@ -1,10 +1,9 @@
 -------------------------- MODULE Gen_ConvertCodec --------------------------
 (* Behaviour generator for the codec part of C18: every (codec, message shape, injection) with
-   the verdict the declarative Unmarshal requires.  top_only tells whether a decoder that looks
-   at top-level unknown fields only (known defect, for classification) would have rejected. *)
+   the verdict the declarative Unmarshal requires. *)
 EXTENDS ConvertCodec, Json
 
 Emit == (pc = "done") =>
           PrintT("SCN " \o ToJson([area |-> "codec", codec |-> c, inj |-> inj, wire |-> wire.body,
-                                   exp |-> Unmarshal(c, wire).r, top_only |-> Known_TopLevelOnly(wire.body)]))
+                                   exp |-> Unmarshal(c, wire).r]))
 =============================================================================
